@@ -8,15 +8,16 @@ use spec::*;
 use vcore::proptest::prelude::*;
 use vcore::Level;
 
-const RULE: &str = "a case is (event: module of 1-3 segments, template of text/hole parts, extent none/point/range incl. empty and inverted ranges, own props over an 8-key alphabet incl. \"\" and \"é\" with frequent duplicates) x (ambient props served by Empty / a list-backed harness Ctxt / the real ThreadLocalCtxt with two entered frames) x (clock none/fixed) x (runtime filter tree) x (optional call-site filter tree) x (destination tree incl. Wrap(from_filter|from_fn prepend), nested Runtime-as-emitter) x (entry point: emit_core::emit, Runtime::emit, <Runtime as Emitter>::emit, emit::emit! with mdl/extent/props at 4 call sites, emit::emit!(evt:), emit::emit!(evt:, template)) x (generic runtime | AmbientRuntime-shaped runtime of &dyn Erased* references). Trees are recursive enums whose variants hold the real emit combinators (And/Or/Option/Box/Arc/&/dyn Erased*/AssertInternal/Wrap/Runtime) instantiated at the enum itself, depth <=4, <=14 nodes. Every case is run on the tree as generated, on the same tree with every node behind dyn Erased*, and with the other runtime flavour; then the event is emitted straight to the destination and the destination is flushed. Non-trivial = the effective filter tree and the destination tree each contain >=1 composite AND (ambient props non-empty OR a key is duplicated in the full event OR a call-site filter is in effect).";
+const RULE: &str = "a case is (event: module of 1-3 segments, template of text/hole parts, extent none/point/range incl. empty and inverted ranges, own props over an 8-key alphabet incl. \"\" and \"é\" with frequent duplicates) x (ambient props served by Empty / a list-backed harness Ctxt / the real ThreadLocalCtxt with two entered frames) x (clock none/fixed) x (runtime filter tree) x (optional call-site filter tree) x (destination tree incl. Wrap(from_filter|from_fn prepend), nested Runtime-as-emitter, forwarding leaf = NESTED EMISSION into another runtime with its own destination tree/filter/list ctxt/clock through emit_core::emit | Runtime::emit | <Runtime as Emitter>::emit | emit!(evt:) | emit!(evt:, template) | emit!(mdl/extent/props, template [capturing a]) | debug!/info!/warn!/error!, with or without a call-site when:, at depth 1 and 2; filter leaves that log their decision by such an emission into an audit runtime) x (entry point: emit_core::emit, Runtime::emit, <Runtime as Emitter>::emit, emit::emit! with mdl/extent/props at 4 call sites, emit::emit!(evt:), emit::emit!(evt:, template)) x (generic runtime | AmbientRuntime-shaped runtime of &dyn Erased* references). Trees are recursive enums whose variants hold the real emit combinators (And/Or/Option/Box/Arc/&/dyn Erased*/AssertInternal/Wrap/Runtime) instantiated at the enum itself, depth <=4, <=14 nodes. Every case is run on the tree as generated, on the same tree with every node behind dyn Erased*, and with the other runtime flavour; then the event is emitted straight to the destination and the destination is flushed. Non-trivial = the effective filter tree and the destination tree each contain >=1 composite AND (ambient props non-empty OR a key is duplicated in the full event OR a call-site filter is in effect).";
 
-const ASSUMPTIONS: [&str; 7] = [
+const ASSUMPTIONS: [&str; 8] = [
     "the oracle is a reference evaluator over the case data (model.rs) written from the property text: model event = own props then ambient props, own extent else the clock's reading; effective filter = call-site filter when given else the runtime's; And=both, Or=either, Option None=pass everything / deliver nothing, Wrap(from_filter g)=inner iff g accepts the event at that position, nested Runtime used as an emitter applies its own clock, ctxt, filter in that order (Runtime::emit rustdoc), every other wrapper is transparent",
     "how often and in which order filter leaves are evaluated (short-circuiting, whether the runtime's filter is consulted at all when a call-site filter is given) is don't-care: recorded, never asserted; what IS asserted is that every evaluated leaf saw the model event of its position and answered by its predicate's logical value on it",
     "ambient properties served by ThreadLocalCtxt come from a hash map: their relative order is unspecified and compared as a multiset; the pushed frames carry distinct keys (de-duplicated by the harness first)",
     "the order of the properties captured by one macro call site is C02's concern: the call sites used here capture `a` then `b`, for which source order and sorted order coincide; captured properties precede the `props:` base properties (emit_props_precedence)",
     "the recursive enums add `evt.to_event().erase()` (props type erasure, as filter::FromFn/emitter::FromFn do) at every enum node to keep the number of generic instantiations finite; the statically typed generator `static-shapes` has no such layer",
     "values are compared by their Display text (type fidelity is C19's concern); rendering = text verbatim, a hole is the first value of its label or `{label}`",
+    "a nested emission (a destination leaf or a filter leaf of the harness that emits the event it is handed into ANOTHER runtime while the emission that reached it is still in flight on the same thread) is an emission like any other: the target runtime's clock fills a missing extent, its ambient props follow the incoming ones, the effective filter (call-site filter if the entry point carries one, else the target runtime's) decides, each destination of the target runtime receives it exactly once; level macros put `lvl` and the template site its captured `a` in front of the base props. A filter leaf that logs its decision owes its audit runtime one such emission per OBSERVED evaluation (how often a filter leaf is evaluated stays don't-care); the forwarding leaf's flush forwards to the destination it forwards into (harness definition)",
     "blocking_flush: timeout values are not asserted, only the boolean result and that each reachable recording leaf is flushed exactly once",
 ];
 
@@ -127,8 +128,73 @@ fn pred_s() -> impl Strategy<Value = Pred> {
     ]
 }
 
-fn fs_s(depth: u32, size: u32) -> impl Strategy<Value = FS> {
-    let leaf = prop_oneof![
+fn via_s() -> impl Strategy<Value = Via> {
+    prop_oneof![
+        1 => Just(Via::Core),
+        2 => Just(Via::RtEmit),
+        1 => Just(Via::RtAsEmitter),
+        3 => Just(Via::MacroEvt),
+        1 => Just(Via::MacroEvtTpl),
+        3 => (0u8..VIA_TPL_SITES).prop_map(Via::MacroTpl),
+        3 => (0u8..4).prop_map(Via::Level),
+    ]
+}
+
+/// A small destination tree for the runtimes below a filter leaf: recording leaves, `And`, and one more
+/// level of forwarding (so a filter leaf's emission can itself be forwarded on: depth 2).
+fn es_small_s() -> BoxedStrategy<ES> {
+    let leaf = || {
+        prop_oneof![
+            6 => prop::bool::weighted(0.8).prop_map(|flush| ES::Leaf { id: 0, flush }),
+            2 => Just(ES::FromFn { id: 0 }),
+            1 => Just(ES::Opt(None)),
+        ]
+    };
+    let flat = || {
+        prop_oneof![
+            3 => leaf(),
+            1 => (leaf(), leaf()).prop_map(|(x, y)| ES::And(Box::new(x), Box::new(y))),
+        ]
+    };
+    let rest = fwd_rest_s(false);
+    prop_oneof![
+        4 => flat(),
+        1 => (flat(), fwd_s(flat().boxed(), rest.clone())).prop_map(|(x, fw)| ES::And(Box::new(x), Box::new(ES::Fwd(Box::new(fw))))),
+        1 => fwd_s(flat().boxed(), rest).prop_map(|fw| ES::Fwd(Box::new(fw))),
+    ]
+    .boxed()
+}
+
+type FwdRest = (Via, i64, Option<FS>, FS, Vec<(u8, Val)>, Option<Ts>);
+
+/// Everything of a nested emission but the destination tree. NOTE: proptest re-runs the closure of a
+/// `prop_recursive` for every generated value, so strategies used inside one are built ONCE outside and
+/// cloned in (a `BoxedStrategy` clone is a reference count).
+fn fwd_rest_s(audit: bool) -> BoxedStrategy<FwdRest> {
+    (
+        via_s(),
+        -1i64..=2,
+        prop::option::weighted(0.45, fs_gen(2, 3, false)),
+        fs_gen(2, 4, audit),
+        props_s(3),
+        prop::option::weighted(0.6, ts_s()),
+    )
+        .boxed()
+}
+
+/// A nested emission into a runtime whose destination tree comes from `emitter`.
+fn fwd_s(emitter: BoxedStrategy<ES>, rest: BoxedStrategy<FwdRest>) -> impl Strategy<Value = FwdSpec> {
+    (emitter, rest).prop_map(|(emitter, (via, a, when, filter, ctxt, clock))| FwdSpec { via, a, when, emitter, filter, ctxt, clock })
+}
+
+fn fs_s(depth: u32, size: u32) -> BoxedStrategy<FS> {
+    fs_gen(depth, size, true)
+}
+
+/// `audit`: leaves that log their decision into an audit runtime are generated too (their own runtimes'
+/// trees come from the `audit = false` strategies, so the construction terminates).
+fn fs_gen(depth: u32, size: u32, audit: bool) -> BoxedStrategy<FS> {
+    let plain = prop_oneof![
         8 => pred_s().prop_map(|pred| FS::Leaf { id: 0, pred }),
         3 => pred_s().prop_map(|pred| FS::FromFn { id: 0, pred }),
         1 => (0u8..3).prop_map(FS::FnPtr),
@@ -138,6 +204,20 @@ fn fs_s(depth: u32, size: u32) -> impl Strategy<Value = FS> {
         1 => (0u8..4, prop::option::weighted(0.4, 0u8..4)).prop_map(|(min, default)| FS::MinLevel { min, default }),
         1 => (0u8..2).prop_map(FS::KindIs),
     ];
+    let leaf = if audit {
+        prop_oneof![
+            17 => plain,
+            2 => (
+                pred_s(),
+                prop_oneof![2 => Just(AuditOn::Always), 1 => Just(AuditOn::Accept), 2 => Just(AuditOn::Reject)],
+                fwd_s(es_small_s(), fwd_rest_s(false)),
+            )
+                .prop_map(|(pred, on, fwd)| FS::Audit { id: 0, pred, on, fwd: Box::new(fwd) }),
+        ]
+        .boxed()
+    } else {
+        plain.boxed()
+    };
     leaf.prop_recursive(depth, size, 2, |inner| {
         let b = |s: BoxedStrategy<FS>| s.prop_map(Box::new);
         let i = inner.boxed();
@@ -153,6 +233,7 @@ fn fs_s(depth: u32, size: u32) -> impl Strategy<Value = FS> {
             1 => b(i).prop_map(FS::AssertInternal),
         ]
     })
+    .boxed()
 }
 
 fn ws_s() -> impl Strategy<Value = WS> {
@@ -178,7 +259,11 @@ fn es_s() -> impl Strategy<Value = ES> {
         1 => Just(ES::Empty),
         1 => Just(ES::Opt(None)),
     ];
-    leaf.prop_recursive(4, 12, 2, |inner| {
+    // built once, cloned into the closure below (which proptest re-runs for every generated value)
+    let ws = ws_s().boxed();
+    let rt_rest = (fs_s(2, 4), props_s(3), prop::option::weighted(0.6, ts_s())).boxed();
+    let fwd_rest = fwd_rest_s(true);
+    leaf.prop_recursive(4, 12, 2, move |inner| {
         let i = inner.prop_map(Box::new).boxed();
         prop_oneof![
             6 => (i.clone(), i.clone()).prop_map(|(x, y)| ES::And(x, y)),
@@ -189,9 +274,20 @@ fn es_s() -> impl Strategy<Value = ES> {
             2 => i.clone().prop_map(ES::Erased),
             1 => i.clone().prop_map(ES::ErasedPlain),
             1 => i.clone().prop_map(ES::AssertInternal),
-            4 => (i.clone(), ws_s()).prop_map(|(x, w)| ES::Wrap(x, w)),
-            2 => (i, fs_s(2, 4), props_s(3), prop::option::weighted(0.6, ts_s()))
-                .prop_map(|(emitter, filter, ctxt, clock)| ES::Rt { emitter, filter, ctxt, clock }),
+            4 => (i.clone(), ws.clone()).prop_map(|(x, w)| ES::Wrap(x, w)),
+            2 => (i.clone(), rt_rest.clone())
+                .prop_map(|(emitter, (filter, ctxt, clock))| ES::Rt { emitter, filter, ctxt, clock }),
+            // a destination that forwards into another runtime (nested emission), at any depth
+            4 => fwd_s(i.clone().prop_map(|b| *b).boxed(), fwd_rest.clone()).prop_map(|fw| ES::Fwd(Box::new(fw))),
+            // ... and one that forwards into a runtime whose destination forwards again (depth 2 on purpose;
+            // the recursion above reaches it too, just rarely)
+            2 => fwd_s(
+                (i.clone(), fwd_s(i.prop_map(|b| *b).boxed(), fwd_rest.clone()))
+                    .prop_map(|(x, fw)| ES::And(x, Box::new(ES::Fwd(Box::new(fw)))))
+                    .boxed(),
+                fwd_rest.clone(),
+            )
+            .prop_map(|fw| ES::Fwd(Box::new(fw))),
         ]
     })
 }
@@ -349,10 +445,10 @@ fn static_case_s() -> impl Strategy<Value = statics::StaticCase> {
         prop::option::weighted(0.6, pred_s()),
         entry_s(),
         (-1i64..=2, 0u8..5, any::<bool>()),
-        ((key_s(), val_s()), props_s(3), prop::option::weighted(0.6, ts_s())),
+        ((key_s(), val_s()), props_s(3), prop::option::weighted(0.6, ts_s()), [via_s(), via_s()]),
     )
         .prop_map(
-            |((shape, evt, ambient, ctxt), clock, preds, flushes, when, entry, (macro_a, macro_b, by_value), (prepend, nested_ctxt, nested_clock))| {
+            |((shape, evt, ambient, ctxt), clock, preds, flushes, when, entry, (macro_a, macro_b, by_value), (prepend, nested_ctxt, nested_clock, vias))| {
                 statics::StaticCase {
                     shape,
                     evt,
@@ -369,6 +465,7 @@ fn static_case_s() -> impl Strategy<Value = statics::StaticCase> {
                     prepend,
                     nested_ctxt,
                     nested_clock,
+                    vias,
                 }
             },
         )
@@ -392,6 +489,37 @@ fn main() {
         s.require("typed-filter:kind", n / 100);
         s.require("typed-filter:own-value-does-not-cast/ambient-does", n / 100);
         s.require("typed-filter:own-value-does-not-cast/ambient-does/leaf-sees-props-generically", n / 100);
+        // nested emission (strengthening after seeded C01k): a destination / filter leaf that emits into
+        // another runtime while it handles an event. Floors at roughly a tenth of the measured frequencies
+        // (% of all 260 k quick cases: 2.0–5.8 for the outer x inner matrix, 2.8 depth>=2, 1.6 macro inside
+        // a nested macro, 5.3 call-site filter, 6.9 / 8.2 accepted / rejected, 9.7 audit leaf evaluated,
+        // 1.2–3.5 per entry point)
+        for class in [
+            "nested-emit:outer-macro/inner-macro",
+            "nested-emit:outer-macro/inner-generic",
+            "nested-emit:outer-generic/inner-macro",
+            "nested-emit:outer-generic/inner-generic",
+            "nested-emit:depth>=2",
+            "nested-emit:call-site-filter",
+            "nested-emit:accepted",
+            "nested-emit:rejected",
+            "nested-emit:audit-filter-leaf-evaluated-and-emitted",
+            "nested-emit:audit-filter-leaf-emission-delivered",
+        ] {
+            s.require(class, n * 2 / 1000);
+        }
+        for class in [
+            "nested-emit:depth>=2/macro-inside-nested-macro",
+            "nested-via:core-emit",
+            "nested-via:runtime-emit",
+            "nested-via:runtime-as-emitter",
+            "nested-via:macro-evt",
+            "nested-via:macro-evt-tpl",
+            "nested-via:macro-template",
+            "nested-via:level-macro",
+        ] {
+            s.require(class, n / 1000);
+        }
         s.gen("trees", n, case_s, run::check);
         s.gen("static-shapes", s.n(60_000, 600_000), static_case_s, statics::check_static);
     })
